@@ -2059,6 +2059,41 @@ func enumTokens(t *testing.T, maxLen int) {
 	rec(nil)
 }
 
+// enumPushTokens: a few push shapes (POST challenged / PUT challenged / both retried / Basic) against
+// every token-service sequence up to maxLen, both body kinds, GET and POST token requests
+func enumPushTokens(t *testing.T, maxLen int) {
+	c401 := behaviour{Kind: "S", Code: 401, Chal: 2, Read: -1}
+	s202 := behaviour{Kind: "S", Code: 202, Read: -1, Lat: 4}
+	s201 := behaviour{Kind: "S", Code: 201, Read: -1}
+	shapes := [][]behaviour{
+		{c401, s202, s201},
+		{s202, c401, s201},
+		{{Kind: "S", Code: 503, Read: -1}, c401, s202, {Kind: "S", Code: 502, Read: 2}, s201},
+		{s202, {Kind: "S", Code: 401, Chal: 1, Read: 1}, s201},
+		{c401, s202, c401, s201},
+	}
+	alphabet := []behaviour{{Kind: "S", Code: 200, Read: -1, Lat: 2}, {Kind: "S", Code: 503, Read: 9}, {Kind: "S", Code: 403, Read: -1}, {Kind: "TO", Read: -1}}
+	var rec func(ts []behaviour)
+	rec = func(ts []behaviour) {
+		for _, sh := range shapes {
+			for _, body := range []string{"R", "O"} {
+				for _, post := range []bool{false, true} {
+					scriptCaseRun(t, &scriptCase{Op: "Z", MaxRetry: 2, Min: 100, Max: 1000, Tbl: []int64{50, 5000}, Dflt: 300, Cancel: -1, Body: body,
+						Data: "0102030405", TokenPost: post, TokenScript: append([]behaviour(nil), ts...), Script: append([]behaviour(nil), sh...)})
+					run.Count("enumerated_push_tokens")
+				}
+			}
+		}
+		if len(ts) == maxLen {
+			return
+		}
+		for _, b := range alphabet {
+			rec(append(ts, b))
+		}
+	}
+	rec(nil)
+}
+
 // ---------------------------------------------------------------- entry point
 
 // replayCases re-runs the "cases" array of a replay/corpus file.  (Not via
@@ -2186,6 +2221,7 @@ func TestVerif(t *testing.T) {
 	}
 	enumUploads(t, run.Scale(4, 5))
 	enumTokens(t, run.Scale(2, 3))
+	enumPushTokens(t, run.Scale(2, 4))
 	nScripts := run.Scale(2500, 400000)
 	nPoints := run.Scale(20000, 3000000)
 	nBig := run.Scale(6, 200)
@@ -2255,7 +2291,7 @@ func coverageFloors(t *testing.T) {
 		"enumerated": 1000, "enumerated_cancel_instants": 500, "enumerated_uploads": 1000, "enumerated_manifest": 20,
 		"point_BD": 500, "point_BP": 3000, "point_DP": 1000, "point_seen_W": 2000, "point_seen_FAIL": 100,
 		"real_transport": 4, "real_transport_complete_bodies": 2, "token_scenarios": 100, "oracle_only_default_policy": 100,
-		"token_attempts_2": 20, "parse_int": 2000, "parse_int_nonzero": 1000, "enumerated_tokens": 300, "op_Y": 50, "op_y": 50, "op_Z": 80,
+		"token_attempts_2": 20, "parse_int": 2000, "parse_int_nonzero": 1000, "enumerated_tokens": 300, "op_Y": 50, "op_y": 50, "op_Z": 80, "enumerated_push_tokens": 300,
 	}
 	var low []string
 	for k, min := range floors {
